@@ -356,7 +356,8 @@ def check(ctx):
     rep.floor("entries of the OpenQASM 3 interpreter's gate tables", n_imp, 31)
 
     _check_stop(ix, rep, m, tab)
-    from .c67_extra import extra
+    from .c67_extra import extra, shadow
 
     extra(ctx, rep)
+    shadow(ctx, rep)
     return rep
